@@ -274,6 +274,14 @@ G_Term(cls, m, n, b, seed, depth, mode) ==
        [] cls = "BlockDiagRepeat" -> Op_BlockDiag(Op_BatchRepeat(G_Term("Dense", n \div 2, n \div 2, b1 \o <<1>>, seed + 3, 0, 1), [i \in 1..Len(b1) |-> 1] \o <<2>>), -3)
        [] cls = "BlockInterRepeat" -> Op_BlockInter(Op_BatchRepeat(G_Term("Dense", n \div 2, n \div 2, b1 \o <<1>>, seed + 3, 0, 1), [i \in 1..Len(b1) |-> 1] \o <<2>>), -3)
        [] cls = "SumBatchRepeat" -> Op_SumBatch(Op_BatchRepeat(G_Term("Dense", n, n, b1 \o <<1>>, seed + 3, 0, 1), [i \in 1..Len(b1) |-> 1] \o <<3>>), -3)
+       \* a triangular operator over a batch-repeated triangular base (what K.repeat(...).cholesky() returns)
+       \* K + D where only the diagonal part carries the batch dimensions (K broadcasts)
+       [] cls = "AddedDiagKBc" -> Op_AddedDiag(G_Term("Dense", n, n, <<>>, seed + 3, 0, mode),
+                                               IF mode = 1 THEN Op_Diag(G_Pos(b \o <<n>>, seed + 5)) ELSE Op_Diag(G_Int(b \o <<n>>, seed + 5)))
+       [] cls = "TriRepeat" ->
+            LET up == seed % 2 L == G_LowerTri(n, <<>>, seed)
+                base == Op_TriT(IF up = 1 THEN T_Transpose(L) ELSE L, up)
+            IN IF b = <<>> THEN base ELSE Op_TriO(Op_BatchRepeat(base, b), up)
        [] cls = "KernelM" ->
             LET x1 == G_Small(b1 \o <<m, 2>>, seed + 3)
                 x2 == IF mode = 1 THEN x1 ELSE G_Small(b2 \o <<n, 2>>, seed + 5)
@@ -291,10 +299,10 @@ G_AllClasses == <<"Dense", "User", "Diag", "ConstDiag", "Identity", "Zero", "Toe
                   "LowRankRoot", "Kron", "Kron3", "KronTri", "KronDiag", "KronAddedDiag", "SumKron", "AddedDiag",
                   "LRRAddedDiag", "Sum", "Sum3", "PsdSum", "Matmul", "Mul", "ConstMul", "BlockDiag", "BlockInter",
                   "SumBatch", "BatchRepeat", "Cat", "Interp", "Masked", "Perm", "TransPerm", "Kernel", "SumInterp", "MatmulTri", "InterpRootSameIdx">>
-G_SquareOnly == {"BlockDiagRepeat", "BlockInterRepeat", "SumBatchRepeat", "AddedDiagRootI", "AddedDiagKronI", "CholKronTriU", "LowRankHuge", "ConstMulI", "BlockDiagConstMulI", "InterpRootSameIdx", "MatmulTri", "LRRAddedDiagI", "AddedDiagI", "SumI", "Diag", "ConstDiag", "Identity", "Toeplitz", "Tri", "Chol", "CholU", "Root", "LowRankRoot", "Kron3", "KronTri",
+G_SquareOnly == {"AddedDiagKBc", "TriRepeat", "BlockDiagRepeat", "BlockInterRepeat", "SumBatchRepeat", "AddedDiagRootI", "AddedDiagKronI", "CholKronTriU", "LowRankHuge", "ConstMulI", "BlockDiagConstMulI", "InterpRootSameIdx", "MatmulTri", "LRRAddedDiagI", "AddedDiagI", "SumI", "Diag", "ConstDiag", "Identity", "Toeplitz", "Tri", "Chol", "CholU", "Root", "LowRankRoot", "Kron3", "KronTri",
                  "KronDiag", "KronAddedDiag", "SumKron", "AddedDiag", "LRRAddedDiag", "PsdSum", "Mul", "BlockDiag",
                  "BlockInter", "Perm", "TransPerm"}
-G_LeafClasses == {"BlockDiagRepeat", "BlockInterRepeat", "SumBatchRepeat", "KernelM", "AddedDiagRootI", "AddedDiagKronI", "ConstMulBc", "CholKronTriU", "LowRankHuge", "ConstMulI", "BlockDiagConstMulI", "InterpRootSameIdx", "MixedDef", "AddedDiagRootConst", "AddedDiagBig", "DenseBig", "KronCholU", "BlockDiagCholU", "SumInterp", "MatmulTri", "LRRAddedDiagI", "AddedDiagI", "SumI", "Dense", "User", "Diag", "ConstDiag", "Identity", "Zero", "Toeplitz", "Chol", "CholU", "SumZ", "LowRankRoot", "KronTri",
+G_LeafClasses == {"AddedDiagKBc", "TriRepeat", "BlockDiagRepeat", "BlockInterRepeat", "SumBatchRepeat", "KernelM", "AddedDiagRootI", "AddedDiagKronI", "ConstMulBc", "CholKronTriU", "LowRankHuge", "ConstMulI", "BlockDiagConstMulI", "InterpRootSameIdx", "MixedDef", "AddedDiagRootConst", "AddedDiagBig", "DenseBig", "KronCholU", "BlockDiagCholU", "SumInterp", "MatmulTri", "LRRAddedDiagI", "AddedDiagI", "SumI", "Dense", "User", "Diag", "ConstDiag", "Identity", "Zero", "Toeplitz", "Chol", "CholU", "SumZ", "LowRankRoot", "KronTri",
                   "KronDiag", "SumKron", "LRRAddedDiag", "Perm", "TransPerm", "Kernel"}
 \* classes that only exist for PSD arguments
 G_PsdOnly == {"BlockDiagRepeat", "BlockInterRepeat", "SumBatchRepeat", "CholKronTriU", "Chol", "CholU", "PsdSum", "Mul"}
